@@ -1,6 +1,7 @@
 package props
 
 import (
+	"go/types"
 	"fmt"
 	"regexp"
 	"strings"
@@ -12,7 +13,7 @@ import (
 
 func init() { Registry["C02"] = C02 }
 
-var sequenceFields = []string{".Elements", ".TextBlocks", ".TextElements", ".textNodes", ".TextNodes"}
+var sequenceFields = []string{".Elements", ".TextBlocks", ".TextElements", ".‹[]*html.Node›", ".TextNodes"}
 
 var reShiftDst = regexp.MustCompile(`^(.*)\[(.*):\]$`)
 
@@ -24,7 +25,7 @@ func C02(p *core.Program, r *core.Report) {
 	c := core.NewCanon(p)
 	// ---- O1
 	for _, key := range []string{domutilPkg + ".WalkNodes", domutilPkg + ".TreeClone$1", domutilPkg + ".InnerText$1", "github.com/go-shiori/dom.Clone"} {
-		fn := mustFunc(p, r, "O1", key)
+		fn := mustInl(p, r, "O1", key)
 		if fn == nil {
 			continue
 		}
@@ -61,6 +62,17 @@ func C02(p *core.Program, r *core.Report) {
 					a := c.Of(x.Addr)
 					for _, f := range sequenceFields {
 						if strings.HasSuffix(a, f) {
+							if f == ".‹[]*html.Node›" {
+								fa, isFA := x.Addr.(*ssa.FieldAddr)
+								if nt := core.NamedOf(func() types.Type {
+									if isFA {
+										return fa.X.Type()
+									}
+									return x.Addr.Type()
+								}()); !isFA || nt == nil || nt.Obj().Name() != "TextBuilder" {
+									continue
+								}
+							}
 							nW++
 							self := strings.TrimPrefix(a, "&")
 							v := c.Of(x.Val)
@@ -114,8 +126,10 @@ func C02(p *core.Program, r *core.Report) {
 	r.Stats["sequence_writers"] = nW
 	r.Floor("O2", 10)
 
-	// ---- O3
-	if bd := mustFunc(p, r, "O3", "(*"+webdocPkg+".TextBuilder).Build"); bd != nil {
+	// ---- O3: the window [start, len(nodes)) that TextBuilder.Build hands out. The two private
+	// fields are identified by their role: what Build stores into Text.Start / Text.TextNodes.
+	wstart, nodes := "", ""
+	if bd := mustInl(p, r, "O3", "(*"+webdocPkg+".TextBuilder).Build"); bd != nil {
 		for _, a := range allocsOf(bd, "/internal/webdoc", "Text") {
 			fs := fieldStores(a)
 			get := func(n string) string {
@@ -124,55 +138,63 @@ func C02(p *core.Program, r *core.Report) {
 				}
 				return ""
 			}
-			r.Add("O3", "Text window starts at the first unconsumed node", p.Pos(a.Pos()), get("Start") == "$0.firstNode", "Start = "+get("Start"))
-			r.Add("O3", "Text window ends at the last collected node", p.Pos(a.Pos()), get("End") == "len($0.textNodes)", "End = "+get("End"))
-			r.Add("O3", "Text shares the builder's node list", p.Pos(a.Pos()), get("TextNodes") == "$0.textNodes", "TextNodes = "+get("TextNodes"))
-		}
-		for _, ret := range core.Returns(bd) {
-			if core.IsNilConst(ret.Results[0]) {
-				continue
+			if s := get("Start"); strings.HasPrefix(s, "$0.‹int") {
+				wstart = s
 			}
-			closes := func(in ssa.Instruction) bool {
-				if st, isSt := in.(*ssa.Store); isSt && c.Of(st.Addr) == "&$0.firstNode" && c.Of(st.Val) == "len($0.textNodes)" {
-					return true
+			if s := get("TextNodes"); s == "$0.‹[]*html.Node›" {
+				nodes = s
+			}
+			r.Add("O3", "Text window starts at the builder's window start", p.Pos(a.Pos()), wstart != "", "Start = "+get("Start"))
+			r.Add("O3", "Text shares the builder's node list", p.Pos(a.Pos()), nodes != "", "TextNodes = "+get("TextNodes"))
+			r.Add("O3", "Text window ends at the last collected node", p.Pos(a.Pos()), nodes != "" && get("End") == "len("+nodes+")", "End = "+get("End"))
+		}
+		if wstart == "" || nodes == "" {
+			r.Undecided("O3", "TextBuilder.Build: window fields", "Build does not fill Text.Start/Text.TextNodes from fields of the builder")
+		} else {
+			for _, ret := range core.Returns(bd) {
+				if core.IsNilConst(ret.Results[0]) {
+					continue
 				}
-				if call, isCall := in.(ssa.CallInstruction); isCall {
-					if f := core.Callee(call); f != nil && strings.Contains(f.String(), "webdoc.TextBuilder)") && windowCloser(p, f) {
+				closes := func(in ssa.Instruction) bool {
+					if st, isSt := in.(*ssa.Store); isSt && c.Of(st.Addr) == "&"+wstart && c.Of(st.Val) == "len("+nodes+")" {
 						return true
 					}
-				}
-				return false
-			}
-			ok, _ := core.MustPassThrough(bd, ret, closes, nil)
-			r.Add("O3", "a handed-out window is closed (firstNode moves to the end)", p.Pos(ret.Pos()), ok, "every path to a non-nil result stores firstNode = len(textNodes), directly or through Reset")
-		}
-		// an empty window yields nil
-		cut, m := core.CutAtoms(p, bd, regexp.MustCompile(`^\$0\.firstNode == len\(\$0\.textNodes\)$`), false)
-		okEmpty := len(m) == 1
-		for _, ret := range core.Returns(bd) {
-			if core.InstrReachable(bd, cut, ret) && !core.IsNilConst(ret.Results[0]) {
-				okEmpty = false
-			}
-		}
-		r.Add("O3", "no Text for an empty window", p.Pos(bd.Pos()), okEmpty, "firstNode == len(textNodes) => nil")
-	}
-	// the window start only ever moves to the end of the collected nodes
-	nFirst := 0
-	for _, fn := range p.ModFunctions(false) {
-		for _, b := range fn.Blocks {
-			for _, in := range b.Instrs {
-				if st, ok := in.(*ssa.Store); ok && strings.HasSuffix(c.Of(st.Addr), ".firstNode") {
-					if _, isAlloc := st.Addr.(*ssa.FieldAddr).X.(*ssa.Alloc); isAlloc {
-						continue // constructor literal
+					if call, isCall := in.(ssa.CallInstruction); isCall {
+						if f := core.Callee(call); f != nil && strings.Contains(f.String(), "webdoc.TextBuilder)") && windowCloser(p, f, wstart, nodes) {
+							return true
+						}
 					}
-					nFirst++
-					r.Add("O3", core.ShortKey(fn)+" moves the window start to the end of the collected nodes", p.Pos(st.Pos()), c.Of(st.Val) == "len($0.textNodes)", "firstNode = "+c.Of(st.Val))
+					return false
+				}
+				ok, _ := core.MustPassThrough(bd, ret, closes, nil)
+				r.Add("O3", "a handed-out window is closed (the window start moves to the end)", p.Pos(ret.Pos()), ok, "every path to a non-nil result stores start = len(nodes)")
+			}
+			// an empty window yields nil
+			cut, m := core.CutAtoms(p, bd, regexp.MustCompile("^"+regexp.QuoteMeta(wstart+" == len("+nodes+")")+"$"), false)
+			okEmpty := len(m) == 1
+			for _, ret := range core.Returns(bd) {
+				if core.InstrReachable(bd, cut, ret) && !core.IsNilConst(ret.Results[0]) {
+					okEmpty = false
 				}
 			}
+			r.Add("O3", "no Text for an empty window", p.Pos(bd.Pos()), okEmpty, "start == len(nodes) => nil")
+			// the window start only ever moves to the end of the collected nodes
+			nFirst := 0
+			for _, fn := range p.ModFunctions(false) {
+				if !strings.Contains(fn.String(), "webdoc.TextBuilder)") {
+					continue
+				}
+				for _, in := range instrsOf(fn) {
+					if st, ok := in.(*ssa.Store); ok && c.Of(st.Addr) == "&"+wstart {
+						nFirst++
+						r.Add("O3", core.ShortKey(fn)+" moves the window start to the end of the collected nodes", p.Pos(st.Pos()), c.Of(st.Val) == "len("+nodes+")", "start = "+c.Of(st.Val))
+					}
+				}
+			}
+			r.Add("O3", "writers of the window start found", "", nFirst >= 1, fmt.Sprintf("%d stores", nFirst))
 		}
 	}
-	r.Add("O3", "writers of the window start found", "", nFirst >= 1, fmt.Sprintf("%d stores", nFirst))
-	if gt := mustFunc(p, r, "O3", "("+webdocPkg+".Text).GetTextNodes"); gt != nil {
+	if gt := mustInl(p, r, "O3", "("+webdocPkg+".Text).GetTextNodes"); gt != nil {
 		for _, ret := range core.Returns(gt) {
 			v := c.Of(ret.Results[0])
 			r.Add("O3", "a Text renders exactly its window", p.Pos(ret.Pos()), v == "$0.TextNodes[$0.Start:$0.End]" || v == "new(webdoc.Text).TextNodes[new(webdoc.Text).Start:new(webdoc.Text).End]", v)
@@ -184,7 +206,7 @@ func C02(p *core.Program, r *core.Report) {
 		{"(*" + webdocPkg + ".Document).GenerateOutput", "GenerateOutput"},
 		{"(*" + webdocPkg + ".Document).GetImageURLs", "URLs"},
 	} {
-		fn := mustFunc(p, r, "O4", spec.key)
+		fn := mustInl(p, r, "O4", spec.key)
 		if fn == nil {
 			continue
 		}
@@ -197,7 +219,7 @@ func C02(p *core.Program, r *core.Report) {
 		if ifi, ok := hs[0].Instrs[len(hs[0].Instrs)-1].(*ssa.If); ok {
 			at, _ = core.NewCanon(p).CondAtom(ifi.Cond)
 		}
-		r.Add("O4", core.ShortKey(fn)+" walks the element list front to back", p.Pos(fn.Pos()), at == `(μ((@0 + 1)|-1) + 1) < len($0.Elements)`, at)
+		r.Add("O4", core.ShortKey(fn)+" walks the element list front to back", p.Pos(fn.Pos()), at == `μ((@0 + 1)|0) < len($0.Elements)`, at)
 		paths, _, _ := core.EnumerateDecisions(p, fn, core.DecisionOpts{IterateAt: hs[0], Outcome: noOutcome, Event: func(in ssa.Instruction, c *core.Canon) (string, bool) {
 			if call, ok := in.(*ssa.Call); ok {
 				s := c.Of(call)
@@ -226,40 +248,59 @@ func C02(p *core.Program, r *core.Report) {
 		r.Add("O4", core.ShortKey(fn)+" emits exactly the content elements", p.Pos(fn.Pos()), bad == 0 && len(paths) >= 2, fmt.Sprintf("%d iteration paths, %d wrong", len(paths), bad))
 	}
 
-	// ---- O5
+	// ---- O5 (builder methods with their helpers expanded: flushing is recognised by what it does -
+	// it asks the text builder for the pending Text and appends that - not by a helper's name)
+	isAdd := func(ci ssa.CallInstruction) bool { return core.IsCallTo(ci, "(*"+webdocPkg+".Document).AddElements") }
+	isBuild := func(in ssa.Instruction) bool { return core.IsCallTo(in, "(*"+webdocPkg+".TextBuilder).Build") }
+	fromBuild := func(call ssa.CallInstruction) bool {
+		// the pending text is the only *webdoc.Text a builder method appends
+		for _, a := range call.Common().Args[1:] {
+			if el := appendedElem2(a); el != nil {
+				a = el
+			}
+			if nt := core.NamedOf(core.StripConv(a).Type()); nt != nil && nt.Obj().Name() == "Text" {
+				return true
+			}
+		}
+		return false
+	}
 	for _, m := range []string{"AddDataTable", "AddTag", "AddEmbed"} {
-		fn := mustFunc(p, r, "O5", "(*"+webdocPkg+".WebDocumentBuilder)."+m)
+		fn := mustInl(p, r, "O5", "(*"+webdocPkg+".WebDocumentBuilder)."+m)
 		if fn == nil {
 			continue
 		}
-		adds := core.Calls(fn, func(ci ssa.CallInstruction) bool { return core.IsCallTo(ci, "(*"+webdocPkg+".Document).AddElements") })
-		if len(adds) != 1 {
-			r.Add("O5", m+" appends one element", p.Pos(fn.Pos()), false, fmt.Sprintf("%d AddElements calls", len(adds)))
+		var own, text []ssa.CallInstruction
+		for _, a := range core.Calls(fn, isAdd) {
+			if fromBuild(a) {
+				text = append(text, a)
+			} else {
+				own = append(own, a)
+			}
+		}
+		if len(own) != 1 {
+			r.Add("O5", m+" appends one element", p.Pos(fn.Pos()), false, fmt.Sprintf("%d AddElements calls for elements other than the pending text", len(own)))
 			continue
 		}
-		ok, _ := core.MustPassThrough(fn, adds[0], func(in ssa.Instruction) bool { return core.IsCallTo(in, "(*"+webdocPkg+".WebDocumentBuilder).flushBlock") }, nil)
-		r.Add("O5", m+" flushes the pending text before appending its element", p.Pos(adds[0].Pos()), ok, "otherwise earlier text would be emitted after the element")
-	}
-	if at := mustFunc(p, r, "O5", "(*"+webdocPkg+".WebDocumentBuilder).addText"); at != nil {
-		n := len(core.Calls(at, func(ci ssa.CallInstruction) bool { return core.IsCallTo(ci, "(*"+webdocPkg+".Document).AddElements") }))
-		r.Add("O5", "addText appends the text once", p.Pos(at.Pos()), n == 1 && len(loopHeadersContaining(at, "AddElements")) == 0, fmt.Sprintf("%d AddElements calls", n))
+		ok, _ := core.MustPassThrough(fn, own[0], isBuild, nil)
+		r.Add("O5", m+" flushes the pending text before appending its element", p.Pos(own[0].Pos()), ok && len(text) >= 1, "otherwise earlier text would be emitted after the element")
+		for _, t := range text {
+			r.Add("O5", m+": the pending text is appended once", p.Pos(t.Pos()), !inLoop(t.Block()) && len(text) == 1 && neverAfter(t, own[0]), fmt.Sprintf("%d appends of the pending text", len(text)))
+		}
 	}
 	// the converter hands each text node to the builder once (dispatcher: C04-V1) and the builder
 	// appends it once
-	if an := mustFunc(p, r, "O5", "(*"+webdocPkg+".TextBuilder).AddTextNode"); an != nil {
+	if an := mustInl(p, r, "O5", "(*"+webdocPkg+".TextBuilder).AddTextNode"); an != nil && nodes != "" {
 		n := 0
-		for _, b := range an.Blocks {
-			for _, in := range b.Instrs {
-				if st, ok := in.(*ssa.Store); ok && c.Of(st.Addr) == "&$0.textNodes" {
-					n++
-				}
+		for _, in := range instrsOf(an) {
+			if st, ok := in.(*ssa.Store); ok && c.Of(st.Addr) == "&"+nodes {
+				n++
 			}
 		}
-		r.Add("O5", "a text node is collected once", p.Pos(an.Pos()), n == 1, fmt.Sprintf("%d appends to textNodes", n))
+		r.Add("O5", "a text node is collected once", p.Pos(an.Pos()), n == 1, fmt.Sprintf("%d appends to the node list", n))
 	}
 
 	// ---- O6
-	if cf := mustFunc(p, r, "O6", "(*mod/internal/extractor/embed.ImageExtractor).createFigCaption"); cf != nil {
+	if cf := mustInl(p, r, "O6", "(*mod/internal/extractor/embed.ImageExtractor).Extract"); cf != nil {
 		v, inner := "", ""
 		for _, call := range core.Calls(cf, func(ci ssa.CallInstruction) bool { return core.IsCallTo(ci, "github.com/go-shiori/dom.SetTextContent") }) {
 			v = c.Of(call.Common().Args[1])
@@ -268,19 +309,20 @@ func C02(p *core.Program, r *core.Report) {
 			inner = c.Of(call.Common().Args[1])
 		}
 		r.Add("O6", "synthesised captions are the visible text of a re-parsed fragment", p.Pos(cf.Pos()),
-			v == `strings.TrimSpace(domutil.InnerText(dom.CreateElement("div")))` && inner == "domutil.InnerText($1)", "caption = "+v+"; fragment = "+inner)
+			v == `strings.TrimSpace(domutil.InnerText(dom.CreateElement("div")))` && strings.HasPrefix(inner, "domutil.InnerText("), "caption = "+v+"; fragment = "+inner)
 	}
-	if tg := mustFunc(p, r, "O6", "(*"+webdocPkg+".Table).GenerateOutput"); tg != nil {
+	if tg := mustInl(p, r, "O6", "(*"+webdocPkg+".Table).GenerateOutput"); tg != nil {
 		for _, ret := range core.Returns(tg) {
 			v := c.Of(ret.Results[0])
-			r.Add("O6", "table text and HTML are rendered from the one clone", p.Pos(ret.Pos()), v == "domutil.InnerText($0.cloned)" || v == "dom.OuterHTML($0.cloned)", v)
+			r.Add("O6", "table text and HTML are rendered from the one clone", p.Pos(ret.Pos()), v == "domutil.InnerText($0.‹*html.Node›)" || v == "dom.OuterHTML($0.‹*html.Node›)", v)
 		}
 	}
 }
 
-// windowCloser: the TextBuilder method stores firstNode = len(textNodes) on every path.
-func windowCloser(p *core.Program, fn *ssa.Function) bool {
+// windowCloser: the TextBuilder method stores start = len(nodes) on every path.
+func windowCloser(p *core.Program, fn *ssa.Function, wstart, nodes string) bool {
 	c := core.NewCanon(p)
+	fn = p.Inlined(fn)
 	rets := core.Returns(fn)
 	if len(rets) == 0 {
 		return false
@@ -288,13 +330,36 @@ func windowCloser(p *core.Program, fn *ssa.Function) bool {
 	for _, ret := range rets {
 		ok, _ := core.MustPassThrough(fn, ret, func(in ssa.Instruction) bool {
 			st, isSt := in.(*ssa.Store)
-			return isSt && c.Of(st.Addr) == "&$0.firstNode" && c.Of(st.Val) == "len($0.textNodes)"
+			return isSt && c.Of(st.Addr) == "&"+wstart && c.Of(st.Val) == "len("+nodes+")"
 		}, nil)
 		if !ok {
 			return false
 		}
 	}
 	return true
+}
+
+// appendedElem2: the single element of a variadic argument slice {x}, if v is one.
+func appendedElem2(v ssa.Value) ssa.Value {
+	sl, ok := v.(*ssa.Slice)
+	if !ok {
+		return nil
+	}
+	al, ok := sl.X.(*ssa.Alloc)
+	if !ok {
+		return nil
+	}
+	var out ssa.Value
+	for _, ref := range *al.Referrers() {
+		if ia, ok := ref.(*ssa.IndexAddr); ok {
+			for _, r2 := range *ia.Referrers() {
+				if st, ok := r2.(*ssa.Store); ok && st.Addr == ia {
+					out = st.Val
+				}
+			}
+		}
+	}
+	return out
 }
 
 // loopHeadersContaining returns loops of fn whose body contains a call with the given name part.
